@@ -123,9 +123,9 @@ func checkC18(c *h.Check) {
 			h.FSOp{Name: "diff", Argv: []string{"diff", "./..."}},
 			h.FSOp{Name: "check", Argv: []string{"check", "./..."}},
 		)
+		ops = append(ops, h.FSOp{Name: "gen-in-dir", Argv: []string{"gen"}, Dir: "app"})
 		if thorough {
-			ops = append(ops, h.FSOp{Name: "gen-prefix", Argv: []string{"gen", "-output_file_prefix", "p_", "./..."}},
-				h.FSOp{Name: "gen-in-dir", Argv: []string{"gen"}, Dir: "app"})
+			ops = append(ops, h.FSOp{Name: "gen-prefix", Argv: []string{"gen", "-output_file_prefix", "p_", "./..."}})
 		}
 		if _, ok := s.Tree[out]; ok {
 			ops = append(ops, h.FSOp{Name: "delete", Edit: func(t h.Tree) (h.Tree, bool) { delete(t, out); return t, true }})
@@ -256,10 +256,23 @@ func checkC18(c *h.Check) {
 	}
 	var initial []*h.FSState
 	for _, v := range variants {
-		initial = append(initial, &h.FSState{Tree: h.Tree(v.files).Clone(), Meta: v.name})
+		initial = append(initial, &h.FSState{Tree: h.Tree(v.files).Clone(), Meta: v.name, Path: []string{"init:" + v.name}})
 	}
 	if !thorough {
 		ex.MaxDepth = 0
+	}
+	if c.Only != "" {
+		// replay of one recorded history, without the explorer
+		rvs, err := ex.Replay(initial, c.Only)
+		if err != nil {
+			c.Internalf("replay: %v", err)
+		}
+		for _, v := range rvs {
+			c.AddViolation(v, nil, map[string]interface{}{"history": v.CaseID})
+		}
+		c.Coverage["states"], c.Coverage["transitions"], c.Coverage["traces_validated_against_impl"] = 1, 1, 1
+		c.Samples = append(c.Samples, c.Only)
+		return
 	}
 	vs := ex.Explore(initial, c.Deadline)
 	for _, v := range vs {
@@ -280,7 +293,7 @@ func checkC18(c *h.Check) {
 	for _, v := range variants {
 		names = append(names, v.name)
 	}
-	c.Coverage["rule"] = fmt.Sprintf("explicit-state BFS to closure over module-tree states (state = full byte content of the tree, deduplicated by hash). Source variants %v; operations: switch to variant, gen (thorough: with -output_file_prefix and from the package directory), diff, check, delete output, replace output by hand-edited / non-compiling / garbage / empty / wrong-package files and by white-space-only variants of the current output (CRLF copy, no final newline, blank tail, truncated half, trailing comment) carrying the !wireinject constraint (old and new syntax). Invariants on every transition: successful gen => output == Fresh(variant) from a pristine checkout, only that file changed, second gen changes nothing, diff right after exits 0; gen's and check's verdict equals the fresh-checkout verdict; failed gen, diff and check leave the tree untouched; diff exits 0/1/2 as specified.", names)
+	c.Coverage["rule"] = fmt.Sprintf("explicit-state BFS to closure over module-tree states (state = full byte content of the tree, deduplicated by hash). Source variants %v; operations: switch to variant, gen (also from the package directory; thorough: with -output_file_prefix), diff, check, delete output, replace output by hand-edited / non-compiling / garbage / empty / wrong-package files and by white-space-only variants of the current output (CRLF copy, no final newline, blank tail, truncated half, trailing comment) carrying the !wireinject constraint (old and new syntax). Invariants on every transition: successful gen => output == Fresh(variant) from a pristine checkout, only that file changed, second gen changes nothing, diff right after exits 0; gen's and check's verdict equals the fresh-checkout verdict; failed gen, diff and check leave the tree untouched; diff exits 0/1/2 as specified.", names)
 	c.Samples = append(c.Samples, map[string]interface{}{"initial_state_files": variants[0].files, "fresh_output_A1": fresh["A1"], "example_history": "switch:A2 ; gen ; damage:noncompiling ; switch:R1 ; gen ; switch:A1 ; gen"})
 	c.Assumptions = append(c.Assumptions, "wire keeps no state outside the module tree (GOCACHE holds no wire data), so a tree is a complete state", "damaged output files all carry the generated build constraint, as the statement requires")
 	if ex.States < 30 && c.Only == "" {
